@@ -38,7 +38,7 @@ TEXT = {
               'their own two (only_written_change); a condition on the variables established at the end of the bodies of an '
               'if / case / for / tablerow block holds after the block (block_end_scope, if_scope, case_scope, loop_scope, '
               'loop_scope_visited), an assignment inside a block body is still bound after the block whatever follows it '
-              'inside (assign_scope_global; assign_scope_expr for an expression whose value the preceding nodes determine), composed for three nested blocks in assign_scope_nested. Tie: the `scope` stream '
+              'inside (assign_scope_global; assign_scope_expr for an expression whose value the preceding nodes determine), composed for three nested blocks in assign_scope_nested. From source bytes (Proofs.C12Source, every good delimiter set, value layer and environment; for capture every output layer that prints a string as its bytes, the standard one included): the source {% capture v %}F{% endcapture %}{{ v }} renders normally exactly when the self-contained piece F does as a template of its own, to the same bytes (capture_source, capture_source_std), and {% assign x = e %}R gives the result of R run with x bound to the value of e, or fails at the line of the assign tag with the evaluation error of e (assign_source). Tie: the `scope` stream '
               'answers every case by the model and the real engine; an independent reference environment interpreter checks every '
               'probe value on the real output, and the capture equivalence is also checked as a metamorphic relation between two '
               'real renders.'),
